@@ -186,6 +186,7 @@ def _minmax(engine, st, fr, name, a, node):
                 return z3.If(Val.is_intv(v), z3.ToReal(Val.i(v)), Val.r(v))
             st1.assume(z3.And(k >= 0, k < n, numat(k) == m))
             st1.assume(z3.ForAll([i], z3.Implies(z3.And(i >= 0, i < n), (m <= numat(i)) if name == "min" else (m >= numat(i)))))
+            st1.ghost["min_witness"] = m
             yield st1, Z(m, "num")
         return
     raise Unsupported("%s%r" % (name, tuple(a)))
